@@ -441,7 +441,7 @@ use crate::vspec_line::*;''')
         f'[C04:special-checked] res is Err <==> {SPEC}.err',
         '[C04:monotone] final(self).regs().address >= old(self).regs().address',
         f'[C04:monotone] old(self).regs().address <= addr_max({H}) ==> final(self).regs().address <= addr_max({H})',
-        WF_NEW], before=[('self.apply_line_advance(line_base', 'proof { axiom_i64_from_u8(line_advance); lemma_line_special(header.lh(), opcode as int); }'),
+        WF_NEW], before=[('self.apply_line_advance(line_base', 'proof { axiom_i64_from_u8(adjusted_opcode % line_range); lemma_line_special(header.lh(), opcode as int); }'),
                  # a special opcode advances by at most 254 operations: the callee's exactness clauses apply unconditionally
                  ('self.apply_operation_advance(u64::from(operation_advance), header)?;', 'proof { lemma_line_small_advance(header.lh(), self.regs(), operation_advance as int); }')], canary=True)
     PH = 'old(program).hdr().lh()'
